@@ -240,9 +240,32 @@ fn main() {
             let ops = std::fs::read_to_string(get("ops", "")).expect("ops file");
             let mut r = seq::Runner::new();
             r.trace = trace();
+            // the fixed cases of the connection suite leave only a `note <case>: …` line behind: replaying such a line runs the case
+            // again (each case writes its own note line and judges itself)
+            let mut ran: std::collections::BTreeSet<&str> = Default::default();
             for l in ops.lines() {
-                if !l.trim().is_empty() {
-                    r.exec(l.trim());
+                let l = l.trim();
+                if l.is_empty() {
+                    continue;
+                }
+                let case = l.strip_prefix("note ").map(|x| x.split(|c| c == ':' || c == ' ').next().unwrap_or(""));
+                match case {
+                    Some(c @ ("reset-after-quit" | "quiet-keepalive" | "limit-edge" | "stalled-oversized" | "unread-close" | "big-response" | "tcp-value-sizes")) => {
+                        if ran.insert(c) {
+                            match c {
+                                "reset-after-quit" => stream::reset_after_quit(&mut r),
+                                "quiet-keepalive" => stream::quiet_keepalive(&mut r),
+                                "limit-edge" => stream::limit_edge(&mut r),
+                                "stalled-oversized" => stream::stalled_oversized(&mut r),
+                                "unread-close" => stream::unread_close(&mut r),
+                                "big-response" => stream::big_response(&mut r),
+                                _ => stream::tcp_value_sizes(&mut r),
+                            }
+                        }
+                    }
+                    _ => {
+                        r.exec(l);
+                    }
                 }
             }
             r.finish();
